@@ -43,12 +43,13 @@ SPECS = {
     "printbuf_extend": dict(mod="TranslatedPb", fam=PB, api=["ret", "errno"],
         post='(if n.ret = 0 then (decide (n.p_size ≥ min_size) && decide (n.p_size ≥ p_size) && decide (n.p_size ≤ 2147483647) && '
              'n.calls.all (fun c => c.1 != "realloc" || c.2 == [p_buf, n.p_size])) else decide (n.p_size = p_size))'),
-    # `env`: the callee answers handed in are ones the callee can give (printbuf_extend answers 0 when the capacity already
-    # covers the request); `tr` = the calls of both runs
+    # `env`: the callee answers handed in are ones the callee can give.  printbuf_extend(p, need) with need <= size is a no-op
+    # answering 0 that leaves buffer and size alone - the havoc values handed in describe a reallocation, so such tuples are
+    # skipped; `tr` = the calls of both runs
     "printbuf_memappend": dict(mod="TranslatedPb", fam=PB, api=["ret", "errno", "p_bpos"], post="true",
-        env='tr.all (fun c => c.1 != "printbuf_extend" || (match c.2 with | [_, need] => decide (need > p_size) || decide (CALLEE = 0) | _ => true))'),
+        env='tr.all (fun c => c.1 != "printbuf_extend" || (match c.2 with | [_, need] => decide (need > p_size) | _ => true))'),
     "printbuf_memset": dict(mod="TranslatedPb", fam=PB, api=["ret", "errno", "pb_bpos"], post="true",
-        env='tr.all (fun c => c.1 != "printbuf_extend" || (match c.2 with | [_, need] => decide (need > pb_size) || decide (CALLEE = 0) | _ => true))'),
+        env='tr.all (fun c => c.1 != "printbuf_extend" || (match c.2 with | [_, need] => decide (need > pb_size) | _ => true))'),
     "array_list_expand_internal": dict(mod="TranslatedAl", fam=AL, api=["ret"],
         post='(if n.ret = 0 then (decide (n.arr_size ≥ max) && decide (n.arr_size ≥ arr_size) && decide (n.arr_size * 8 ≤ 18446744073709551615) && '
              'n.calls.all (fun c => c.1 != "realloc" || c.2 == [arr_array, n.arr_size * 8])) else decide (n.arr_size = arr_size))'),
